@@ -198,7 +198,6 @@ Record same_frame (st st' : cstate) : Prop := {
   fr_present : present st' = present st;
   fr_mgr : mgr_up st' = mgr_up st;
   fr_disabled : disabled st' = disabled st;
-  fr_lock : lockh st' = lockh st;
   fr_sess : sess_file st' = sess_file st;
   fr_threads : threads st' = threads st;
   fr_gen : next_gen st' = next_gen st;
@@ -247,26 +246,43 @@ Qed.
 (* ------------------------------------------------------------------ *)
 (* the global invariant *)
 
-Definition holds_lock (th : thread) : bool :=
-  match th_pc th with TJoin | TResetArch | TResetResume | TConn _ _ => true | _ => false end.
 Definition idle (th : thread) : bool :=
   match th_pc th with TCalled | TRet _ => true | _ => false end.
-Definition is_create (c : cmd) : bool := match c with CCreate _ => true | _ => false end.
-Definition creating (th : thread) : bool := is_create (th_cmd th) && negb (idle th).
+Definition holds_pc (pc : tpc) : bool :=
+  match pc with TJoin | TResetArch | TResetResume | TConn _ _ => true | _ => false end.
+Definition idle_pc (pc : tpc) : bool :=
+  match pc with TCalled | TRet _ => true | _ => false end.
+
+Lemma holds_lock_pc : forall th, holds_lock th = holds_pc (th_pc th).
+Proof. reflexivity. Qed.
+Lemma idle_idle_pc : forall th, idle th = idle_pc (th_pc th).
+Proof. reflexivity. Qed.
+
+(* which program counters a command can be at *)
+Definition pc_cmd_ok (c : cmd) (pc : tpc) : bool :=
+  match pc with
+  | TCalled => negb (is_create c)
+  | TStart | TRet _ => true
+  | TJoin => match c with CPause | CShutdown | CTerminate | CResume | CReset => true | _ => false end
+  | TResetArch | TResetResume => match c with CReset => true | _ => false end
+  | TConn _ _ => match c with CResume | CReset | CCreate false => true | _ => false end
+  | TFlushSend _ _ => match c with CFlush _ => true | _ => false end
+  | TFlushWait _ _ => match c with CFlush true => true | _ => false end
+  end.
 
 Record ginv (st : cstate) : Prop := {
   g_nodup : NoDup (ids (threads st));
   g_bound : Forall (fun th => th_id th < tid_bound st) (threads st);
-  g_lock1 : Forall (fun th => holds_lock th = true -> lockh st = Some (th_id th)) (threads st);
-  g_lock2 : forall t, lockh st = Some t ->
-                      exists th, In th (threads st) /\ th_id th = t /\ holds_lock th = true;
-  g_created : present st = true -> created st = true;
-  g_sel : Forall (fun th => idle th = false \/ (is_pause (th_cmd th) = true /\ th_pc th = TRet true)
-                            -> created st = true) (threads st);
-  g_creating : (exists th, In th (threads st) /\ creating th = true) ->
-               present st = false /\ disabled st = false /\ loop st = None /\
-               Forall (fun th => creating th = true \/ idle th = true) (threads st);
-  g_disabled : disabled st = true -> loop st = None /\ lockh st = None;
+  g_lock : forall th th', In th (threads st) -> In th' (threads st) ->
+                          holds_lock th = true -> holds_lock th' = true -> th_id th = th_id th';
+  g_create : forall th, In th (threads st) -> is_create (th_cmd th) = true -> threads st = [th];
+  g_pc : forall th, In th (threads st) -> pc_cmd_ok (th_cmd th) (th_pc th) = true;
+  g_created : threads st <> [] -> created st = true;
+  g_present : present st = true -> created st = true;
+  g_fresh : created st = false -> disabled st = false /\ loop st = None /\ mgr_up st = true;
+  g_creating : forall th, In th (threads st) -> is_create (th_cmd th) = true -> idle th = false ->
+                          present st = false /\ disabled st = false /\ loop st = None;
+  g_disabled : disabled st = true -> loop st = None /\ locked st = false;
   g_cancel : forall l, loop st = Some l -> lcancel l = true ->
                        exists th, In th (threads st) /\ th_pc th = TJoin
 }.
@@ -276,11 +292,13 @@ Proof.
   intros. constructor; cbn.
   - constructor.
   - constructor.
-  - constructor.
+  - intros th th' [].
+  - intros th [].
+  - intros th [].
+  - intro H; contradiction.
   - intros; discriminate.
-  - intros; discriminate.
-  - constructor.
-  - intros (th & [] & _).
+  - auto.
+  - intros th [].
   - intros; discriminate.
   - intros; discriminate.
 Qed.
@@ -290,13 +308,375 @@ Lemma ginv_loop_step : forall st l a st' evs,
 Proof.
   intros st l a st' evs G Hl H.
   destruct (loop_step_frame _ _ _ _ _ H) as [F _].
+  assert (locked st' = locked st) as Hlk by (unfold locked; rewrite (fr_threads _ _ F); reflexivity).
   destruct (loop_step_loop _ _ _ _ _ H) as [Hn|(l' & Hl' & Hc & _)];
   destruct F; destruct G; constructor;
-    rewrite ?fr_threads0, ?fr_bound0, ?fr_lock0, ?fr_present0, ?fr_created0, ?fr_disabled0; auto.
-  - intros Hex. destruct (g_creating0 Hex) as (_ & _ & Hnone & _). congruence.
+    rewrite ?Hlk, ?fr_threads0, ?fr_bound0, ?fr_present0, ?fr_created0, ?fr_disabled0, ?fr_mgr0; auto.
+  - intro Hf. destruct (g_fresh0 Hf) as (_ & Hnone & _). congruence.
+  - intros th Hin Hc Hi. destruct (g_creating0 th Hin Hc Hi) as (_ & _ & Hnone). congruence.
   - intro Hd. destruct (g_disabled0 Hd) as [Hnone _]. congruence.
   - intros l0 Hl0. congruence.
-  - intros Hex. destruct (g_creating0 Hex) as (_ & _ & Hnone & _). congruence.
+  - intro Hf. destruct (g_fresh0 Hf) as (_ & Hnone & _). congruence.
+  - intros th Hin Hc0 Hi. destruct (g_creating0 th Hin Hc0 Hi) as (_ & _ & Hnone). congruence.
   - intro Hd. destruct (g_disabled0 Hd) as [Hnone _]. congruence.
   - intros l0 Hl0 Hc0. rewrite Hl' in Hl0. inv Hl0. rewrite Hc in Hc0. eapply g_cancel0; eassumption.
+Qed.
+
+(* ---- list-level helpers for moving one thread ---- *)
+
+Lemma bound_set_thread : forall b t pc ths,
+  Forall (fun th => th_id th < b) ths -> Forall (fun th => th_id th < b) (set_thread t pc ths).
+Proof.
+  intros. eapply Forall_set_thread; [eassumption| |]; intros; cbn; assumption.
+Qed.
+
+Lemma locked_false : forall ths, existsb holds_lock ths = false ->
+  forall th, In th ths -> holds_lock th = false.
+Proof.
+  intros ths H th Hin. destruct (holds_lock th) eqn:E; [|reflexivity].
+  assert (existsb holds_lock ths = true) by (apply existsb_exists; eauto). congruence.
+Qed.
+
+(* moving thread t to pc': at most one holder remains, provided that a
+   lock-holding pc is entered only by the holder or when nobody holds it *)
+Lemma lock_set_thread : forall ths t pc',
+  (forall th th', In th ths -> In th' ths -> holds_lock th = true -> holds_lock th' = true -> th_id th = th_id th') ->
+  (holds_pc pc' = true ->
+   (exists th, In th ths /\ th_id th = t /\ holds_lock th = true) \/ existsb holds_lock ths = false) ->
+  forall th th', In th (set_thread t pc' ths) -> In th' (set_thread t pc' ths) ->
+                 holds_lock th = true -> holds_lock th' = true -> th_id th = th_id th'.
+Proof.
+  intros ths t pc' Hold Hnew y y' Hy Hy' Hh Hh'.
+  apply in_set_thread in Hy. apply in_set_thread in Hy'.
+  destruct Hy as (x & Hx & [[Hne ->]|[He ->]]); destruct Hy' as (x' & Hx' & [[Hne' ->]|[He' ->]]); cbn in *.
+  - apply Hold; assumption.
+  - rewrite He'. destruct (Hnew Hh') as [(th & Hin & Hid & Hl)|Hnone].
+    + rewrite <- Hid. apply Hold; assumption.
+    + rewrite (locked_false _ Hnone _ Hx) in Hh. discriminate.
+  - rewrite He. destruct (Hnew Hh) as [(th & Hin & Hid & Hl)|Hnone].
+    + rewrite <- Hid. symmetry. apply Hold; assumption.
+    + rewrite (locked_false _ Hnone _ Hx') in Hh'. discriminate.
+  - congruence.
+Qed.
+
+Lemma create_set_thread : forall ths t pc',
+  (forall th, In th ths -> is_create (th_cmd th) = true -> ths = [th]) ->
+  forall th, In th (set_thread t pc' ths) -> is_create (th_cmd th) = true -> set_thread t pc' ths = [th].
+Proof.
+  intros ths t pc' H y Hy Hc. unfold set_thread in *. apply in_map_iff in Hy. destruct Hy as (x & <- & Hx).
+  rewrite upd_thread_cmd in Hc. rewrite (H x Hx Hc). reflexivity.
+Qed.
+
+Lemma set_thread_nonempty : forall t pc ths, ths <> [] -> set_thread t pc ths <> [].
+Proof. intros t pc [|x r] H; [contradiction|discriminate]. Qed.
+
+Lemma locked_set_thread_release : forall ths t pc',
+  (forall th th', In th ths -> In th' ths -> holds_lock th = true -> holds_lock th' = true -> th_id th = th_id th') ->
+  holds_pc pc' = false ->
+  (exists th, In th ths /\ th_id th = t /\ holds_lock th = true) \/ existsb holds_lock ths = false ->
+  existsb holds_lock (set_thread t pc' ths) = false.
+Proof.
+  intros ths t pc' Hold Hpc Hcase.
+  destruct (existsb holds_lock (set_thread t pc' ths)) eqn:E; [|reflexivity].
+  apply existsb_exists in E. destruct E as (y & Hy & Hh).
+  apply in_set_thread in Hy. destruct Hy as (x & Hx & [[Hne ->]|[He ->]]).
+  - destruct Hcase as [(th & Hin & Hid & Hl)|Hnone].
+    + exfalso. apply Hne. rewrite <- Hid. apply Hold; assumption.
+    + rewrite (locked_false _ Hnone _ Hx) in Hh. discriminate.
+  - cbn in Hh. unfold holds_lock in Hh. cbn in Hh. fold (holds_pc pc') in Hh. congruence.
+Qed.
+
+Lemma nodup_ids_unique : forall ths a b,
+  NoDup (ids ths) -> In a ths -> In b ths -> th_id a = th_id b -> a = b.
+Proof.
+  induction ths as [|x r IH]; intros a b Hnd Ha Hb He; [destruct Ha|].
+  cbn in Hnd. inv Hnd. destruct Ha as [<-|Ha], Hb as [<-|Hb].
+  - reflexivity.
+  - exfalso. apply H1. rewrite He. apply in_map. exact Hb.
+  - exfalso. apply H1. rewrite <- He. apply in_map. exact Ha.
+  - apply IH; assumption.
+Qed.
+
+Lemma locked_iff : forall st, locked st = false -> forall th, In th (threads st) -> holds_lock th = false.
+Proof. intros st H. apply locked_false. exact H. Qed.
+
+(* one thread moves to another program counter while fields other than the
+   thread table change *)
+Lemma ginv_move : forall st X t th pc',
+  ginv st -> find_thread t (threads st) = Some th ->
+  threads X = threads st -> tid_bound X = tid_bound st -> pc_cmd_ok (th_cmd th) pc' = true ->
+  (holds_pc pc' = true -> holds_lock th = true \/ locked st = false) ->
+  (created st = true -> created X = true) ->
+  (present X = true -> created X = true) ->
+  (is_create (th_cmd th) = true -> idle_pc pc' = false ->
+   present X = false /\ disabled X = false /\ loop X = None) ->
+  (disabled X = true ->
+   loop X = None /\ holds_pc pc' = false /\ (holds_lock th = true \/ locked st = false)) ->
+  (forall l, loop X = Some l -> lcancel l = true ->
+             pc' = TJoin \/ (th_pc th <> TJoin /\ exists l0, loop st = Some l0 /\ lcancel l0 = true)) ->
+  ginv (goto X t pc').
+Proof.
+  intros st X t th pc' G Hf Hths Hb Hnc Hlock Hcr Hpr Hcreating Hdis Hcan.
+  destruct (find_thread_in _ _ _ Hf) as [Hin Hid].
+  destruct G. constructor; unfold goto; cbn; rewrite ?Hths, ?Hb.
+  - rewrite ids_set_thread. assumption.
+  - apply bound_set_thread. assumption.
+  - apply lock_set_thread; [assumption|]. intro Hp. destruct (Hlock Hp) as [H|H].
+    + left. exists th. auto.
+    + right. exact H.
+  - apply create_set_thread. assumption.
+  - intros y Hy. apply in_set_thread in Hy. destruct Hy as (x & Hx & [[Hne ->]|[He ->]]).
+    + apply g_pc0; assumption.
+    + cbn. assert (x = th) as -> by (eapply nodup_ids_unique; eauto; congruence). exact Hnc.
+  - intros _. apply Hcr. apply g_created0. intro E. rewrite E in Hin. destruct Hin.
+  - assumption.
+  - intro Hfr. exfalso. rewrite Hcr in Hfr; [discriminate|].
+    apply g_created0. intro E. rewrite E in Hin. destruct Hin.
+  - intros y Hy Hc Hi. apply in_set_thread in Hy. destruct Hy as (x & Hx & [[Hne ->]|[He ->]]).
+    + (* another thread is a create thread: then it is the only thread *)
+      exfalso. rewrite (g_create0 x Hx Hc) in Hin. destruct Hin as [<-|[]]. apply Hne. exact Hid.
+    + cbn in Hc, Hi. assert (x = th) as -> by (eapply nodup_ids_unique; eauto; congruence).
+      apply Hcreating; assumption.
+  - intro Hd. destruct (Hdis Hd) as (Hl & Hp & Hcase). split; [exact Hl|].
+    unfold locked. cbn. rewrite ?Hths. apply locked_set_thread_release; [assumption|exact Hp|].
+    destruct Hcase as [H|H]; [left; exists th; auto|right; exact H].
+  - intros l Hl Hc. destruct (Hcan l Hl Hc) as [->|(Hne & l0 & Hl0 & Hc0)].
+    + exists {| th_id := th_id th; th_cmd := th_cmd th; th_pc := TJoin |}. split; [|reflexivity].
+      rewrite <- (upd_thread_same t TJoin th Hid). apply set_thread_in. exact Hin.
+    + destruct (g_cancel0 l0 Hl0 Hc0) as (th0 & Hin0 & Hpc0).
+      exists th0. split; [|exact Hpc0].
+      assert (th_id th0 <> t) as Hne0.
+      { intro E. assert (th0 = th) by (eapply nodup_ids_unique; eauto; congruence). subst th0. contradiction. }
+      rewrite <- (upd_thread_other t pc' th0 Hne0). apply set_thread_in. exact Hin0.
+Qed.
+
+Ltac unfold_steps H :=
+  unfold step, acquire_step, join_step, reset_step, conn_step, flush_send_step, flush_recv_step,
+         cancel_and_join, halt_tail, resume_tail, chan_live in H.
+
+Lemma holder_locked : forall st th, In th (threads st) -> holds_lock th = true -> locked st = true.
+Proof. intros. unfold locked. apply existsb_exists. eauto. Qed.
+
+Ltac side :=
+  cbn in *; unfold holds_lock, idle in *;
+  repeat match goal with E : th_pc _ = _ |- _ => rewrite E in * end;
+  repeat match goal with E : th_cmd _ = _ |- _ => rewrite E in * end;
+  cbn in *; intros;
+  try solve [intuition (try congruence; try discriminate; eauto)].
+
+Lemma ginv_thread_moves : forall st t a st' evs,
+  ginv st ->
+  (a = ASelect t \/ a = AAcquire t \/ a = AJoin t \/ a = AResetStep t \/ (exists ok, a = AConn t ok)
+   \/ (exists ch, a = AFlushSend t ch) \/ (exists ch, a = AFlushRecv t ch)) ->
+  step st a = Some (st', evs) -> ginv st'.
+Proof.
+  intros st t a st' evs G Ha H.
+  pose proof (g_present _ G) as Gp. pose proof (g_disabled _ G) as Gd. pose proof (g_cancel _ G) as Gc.
+  destruct Ha as [->|[->|[->|[->|[(ok & ->)|[(ch & ->)|(ch & ->)]]]]]];
+    unfold_steps H; crunch.
+  all: match goal with
+       | Hf : find_thread _ _ = Some ?th |- _ =>
+         let Hin := fresh "Hin" in let Hid := fresh "Hid" in
+         destruct (find_thread_in _ _ _ Hf) as [Hin Hid];
+         pose proof (g_creating _ G _ Hin) as Gcr;
+         pose proof (g_pc _ G _ Hin) as Gcp;
+         pose proof (holder_locked _ _ Hin) as Ghl;
+         assert (created st = true) as Gcd by (apply (g_created _ G); intro Em; rewrite Em in Hin; destruct Hin);
+         try rewrite Hid in *;
+         eapply (ginv_move _ _ _ _ _ G Hf)
+       end.
+  all: try reflexivity.
+  all: try solve [side].
+  all: try solve [cbn; intros l0 Hl0 Hc0; inv Hl0; discriminate].
+  all: try solve [destruct wait; side].
+  all: try solve [cbn; intros l0 Hl0 Hc0; inv Hl0; cbn in Hc0; right; rewrite E0; split; [discriminate|eauto]].
+  all: try solve [rewrite E0 in Gcp; cbn in Gcp; apply negb_true_iff in Gcp; intros; congruence].
+  all: try solve [rewrite E0 in Gcp; destruct (th_cmd t0) as [[]| | | | |[]| ]; cbn in *; congruence].
+Qed.
+
+
+Lemma existsb_false_forall : forall (A : Type) (f : A -> bool) l,
+  existsb f l = false -> forall x, In x l -> f x = false.
+Proof.
+  intros A f l H x Hin. destruct (f x) eqn:E; [|reflexivity].
+  assert (existsb f l = true) by (apply existsb_exists; eauto). congruence.
+Qed.
+
+Lemma ginv_call : forall st t c st' evs,
+  ginv st -> step st (ACall t c) = Some (st', evs) -> ginv st'.
+Proof.
+  intros st t c st' evs G H. cbn in H.
+  destruct (Nat.leb (tid_bound st) t) eqn:Eb; [|discriminate]. apply Nat.leb_le in Eb.
+  assert (Hfresh : ~ In t (ids (threads st))).
+  { intro Hin. unfold ids in Hin. apply in_map_iff in Hin. destruct Hin as (x & Hx & Hin).
+    pose proof (proj1 (Forall_forall _ _) (g_bound _ G) _ Hin) as Hb. cbn in Hb. lia. }
+  assert (Hbound : Forall (fun th => th_id th < S t) (threads st)).
+  { eapply Forall_impl; [|apply (g_bound _ G)]. intros; cbn in *; lia. }
+  destruct (is_create c) eqn:Ec.
+  - (* Create: nothing exists yet *)
+    destruct c; try discriminate. destruct (created st) eqn:Ecr; [discriminate|]. inv H.
+    assert (threads st = []) as Hnil.
+    { destruct (threads st) eqn:Et; [reflexivity|].
+      assert (created st = true) by (apply (g_created _ G); rewrite Et; discriminate). congruence. }
+    assert (present st = false) as Hp.
+    { destruct (present st) eqn:Ep; [|reflexivity]. rewrite (g_present _ G Ep) in Ecr. discriminate. }
+    destruct (g_fresh _ G Ecr) as (Hd & Hl & Hm).
+    constructor; cbn; rewrite ?Hnil; cbn.
+    + constructor; [intros []|constructor].
+    + constructor; [cbn; lia|constructor].
+    + intros th th' [<-|[]] [<-|[]] _ _. reflexivity.
+    + intros th [<-|[]] _. reflexivity.
+    + intros th [<-|[]]. reflexivity.
+    + reflexivity.
+    + reflexivity.
+    + discriminate.
+    + intros th [<-|[]] _ _. auto.
+    + rewrite Hd. discriminate.
+    + rewrite Hl. discriminate.
+  - (* any other command: Create has returned *)
+    assert (st' = st_with_threads (st_with_bound st (S t))
+                                  ({| th_id := t; th_cmd := c; th_pc := TCalled |} :: threads st)
+            /\ created st = true
+            /\ existsb (fun th => is_create (th_cmd th)) (threads st) = false) as (-> & Hcr & Hnc).
+    { destruct c; try discriminate;
+        (destruct (created st && negb (existsb (fun th => is_create (th_cmd th)) (threads st))) eqn:E;
+         [|discriminate]; apply andb_prop in E; destruct E as [E1 E2]; apply negb_true_iff in E2;
+         inv H; repeat split; assumption). }
+    pose proof (existsb_false_forall _ _ _ Hnc) as Hno.
+    destruct G. constructor; cbn.
+    + constructor; assumption.
+    + constructor; [cbn; lia|assumption].
+    + intros th th' [<-|Hin] [<-|Hin'] Hh Hh'; try discriminate. apply g_lock0; assumption.
+    + intros th [<-|Hin] Hc; [cbn in Hc; congruence|]. rewrite (Hno th Hin) in Hc. discriminate.
+    + intros th [<-|Hin]; [cbn; rewrite Ec; reflexivity|]. apply g_pc0; assumption.
+    + intros _. exact Hcr.
+    + assumption.
+    + intro Hf. congruence.
+    + intros th [<-|Hin] Hc Hi; [cbn in Hc; congruence|]. rewrite (Hno th Hin) in Hc. discriminate.
+    + intro Hd. destruct (g_disabled0 Hd) as [Hl Hk]. split; [exact Hl|].
+      unfold locked in *. cbn. exact Hk.
+    + intros l Hl Hc. destruct (g_cancel0 l Hl Hc) as (th & Hin & Hpc). exists th. split; [right; exact Hin|exact Hpc].
+Qed.
+
+Lemma ginv_return : forall st t st' evs,
+  ginv st -> step st (AReturn t) = Some (st', evs) -> ginv st'.
+Proof.
+  intros st t st' evs G H. cbn in H.
+  destruct (find_thread t (threads st)) as [th|] eqn:Ef; [|discriminate].
+  destruct (th_pc th) eqn:Epc; try discriminate. inv H.
+  destruct (find_thread_in _ _ _ Ef) as [Hin Hid].
+  assert (Hcr : created st = true).
+  { apply (g_created _ G). intro E. rewrite E in Hin. destruct Hin. }
+  destruct G. constructor; cbn.
+  - apply NoDup_ids_remove. assumption.
+  - apply Forall_remove_thread. assumption.
+  - intros x x' Hx Hx'. apply in_remove_thread in Hx. apply in_remove_thread in Hx'.
+    apply g_lock0; tauto.
+  - intros x Hx Hc. apply in_remove_thread in Hx. destruct Hx as [Hx Hne].
+    pose proof (g_create0 x Hx Hc) as E. rewrite E in Hin. destruct Hin as [<-|[]]. congruence.
+  - intros x Hx. apply in_remove_thread in Hx. apply g_pc0. tauto.
+  - intros _. exact Hcr.
+  - assumption.
+  - intro Hf. congruence.
+  - intros x Hx. apply in_remove_thread in Hx. apply g_creating0. tauto.
+  - intro Hd. destruct (g_disabled0 Hd) as [Hl Hk]. split; [exact Hl|].
+    unfold locked in *. cbn. destruct (existsb holds_lock (remove_thread t (threads st))) eqn:E; [|reflexivity].
+    apply existsb_exists in E. destruct E as (x & Hx & Hh). apply in_remove_thread in Hx.
+    rewrite (locked_false _ Hk x (proj1 Hx)) in Hh. discriminate.
+  - intros l Hl Hc. destruct (g_cancel0 l Hl Hc) as (x & Hx & Hpc). exists x. split; [|exact Hpc].
+    apply in_remove_thread. split; [exact Hx|]. intro E.
+    assert (x = th) by (eapply nodup_ids_unique; eauto; congruence). subst x. congruence.
+Qed.
+
+Lemma ginv_new_manager : forall st st' evs,
+  ginv st -> step st ANewManager = Some (st', evs) -> ginv st'.
+Proof.
+  intros st st' evs G H. cbn in H.
+  destruct (threads st) eqn:Et; [|discriminate].
+  destruct (mgr_up st) eqn:Em; [discriminate|].
+  assert (Hcr : created st = true).
+  { destruct (created st) eqn:E; [reflexivity|]. destruct (g_fresh _ G E) as (_ & _ & Hm). congruence. }
+  assert (Hlk : forall X, threads X = [] -> locked X = false) by (intros X E; unfold locked; rewrite E; reflexivity).
+  destruct (sess_file st) as [p|] eqn:Es; [destruct p|]; inv H; constructor; cbn; rewrite ?Et.
+  all: try solve [constructor | intros th [] | intros th th' [] | intros; discriminate
+                 | intro; contradiction | intros; exact Hcr | intro; congruence
+                 | intros l Hl Hc; inv Hl; discriminate
+                 | intros; split; [reflexivity|apply Hlk; cbn; assumption] ].
+  intros; split; reflexivity.
+Qed.
+
+Lemma ginv_step : forall st a st' evs, ginv st -> step st a = Some (st', evs) -> ginv st'.
+Proof.
+  intros st a st' evs G H. destruct a.
+  - eapply ginv_call; eassumption.
+  - eapply ginv_thread_moves; [eassumption| |eassumption]. auto.
+  - eapply ginv_thread_moves; [eassumption| |eassumption]. auto.
+  - eapply ginv_thread_moves; [eassumption| |eassumption]. auto.
+  - eapply ginv_thread_moves; [eassumption| |eassumption]. auto.
+  - eapply ginv_thread_moves; [eassumption| |eassumption]. eauto 8.
+  - eapply ginv_thread_moves; [eassumption| |eassumption]. eauto 8.
+  - eapply ginv_thread_moves; [eassumption| |eassumption]. eauto 8.
+  - eapply ginv_return; eassumption.
+  - cbn in H. inv H. assumption.
+  - cbn in H. inv H. assumption.
+  - cbn in H. inv H. assumption.
+  - cbn in H. inv H. assumption.
+  - eapply ginv_new_manager; eassumption.
+  - cbn in H. destruct (loop st) eqn:El; [|discriminate]. eapply ginv_loop_step; eassumption.
+Qed.
+
+Lemma ginv_reach : forall m manual st tr, reach (init_state m manual) st tr -> ginv st.
+Proof.
+  intros m manual st tr H. induction H.
+  - apply ginv_init.
+  - eapply ginv_step; eassumption.
+Qed.
+
+(* ------------------------------------------------------------------ *)
+(* what a step does to the thread table and which command events it emits *)
+
+Definition is_call_ret (e : event) : bool :=
+  match e with Ca _ _ | Rt _ _ _ => true | _ => false end.
+
+Lemma step_keys : forall st a st' evs,
+  step st a = Some (st', evs) ->
+  (forall t c, a <> ACall t c) -> (forall t, a <> AReturn t) ->
+  keys (threads st') = keys (threads st) /\ forallb (fun e => negb (is_call_ret e)) evs = true.
+Proof.
+  intros st a st' evs H Hnc Hnr.
+  destruct a; try (exfalso; eapply Hnc; reflexivity); try (exfalso; eapply Hnr; reflexivity).
+  all: try solve [unfold_steps H; crunch; cbn -[set_thread keys]; rewrite ?keys_set_thread; split; reflexivity].
+  - (* new manager *)
+    cbn in H. destruct (threads st) eqn:Et; [|discriminate]. crunch; cbn; rewrite ?Et; split; reflexivity.
+  - (* loop *)
+    cbn in H. destruct (loop st) as [l|] eqn:El; [|discriminate].
+    destruct (loop_step_frame _ _ _ _ _ H) as [F Hev]. rewrite (fr_threads _ _ F). split; [reflexivity|].
+    clear -Hev. induction evs as [|e r IH]; [reflexivity|]. cbn in *. apply andb_prop in Hev. destruct Hev as [He Hr].
+    rewrite (IH Hr). destruct e; cbn in *; try discriminate; reflexivity.
+Qed.
+
+Lemma step_call : forall st t c st' evs,
+  step st (ACall t c) = Some (st', evs) ->
+  evs = [Ca t c] /\ exists pc, threads st' = {| th_id := t; th_cmd := c; th_pc := pc |} :: threads st
+                               /\ (pc = TCalled \/ pc = TStart).
+Proof.
+  intros st t c st' evs H. cbn in H. crunch; (split; [reflexivity|]); eexists; (split; [reflexivity|]); auto.
+Qed.
+
+Lemma step_return : forall st t st' evs,
+  step st (AReturn t) = Some (st', evs) ->
+  exists th ok, find_thread t (threads st) = Some th /\ th_pc th = TRet ok /\
+                threads st' = remove_thread t (threads st) /\
+                evs = [Rt t (th_cmd th) (match th_cmd th with CShutdown => true | _ => ok end)].
+Proof.
+  intros st t st' evs H. cbn in H.
+  destruct (find_thread t (threads st)) as [th|] eqn:Ef; [|discriminate].
+  destruct (th_pc th) eqn:Epc; try discriminate. inv H. eauto 8.
+Qed.
+
+Lemma in_ids_remove : forall t t0 ths, In t0 (ids (remove_thread t ths)) <-> In t0 (ids ths) /\ t0 <> t.
+Proof.
+  intros. unfold ids. rewrite !in_map_iff. split.
+  - intros (x & <- & Hx). apply in_remove_thread in Hx. destruct Hx. split; eauto.
+  - intros [(x & <- & Hx) Hne]. exists x. split; [reflexivity|]. apply in_remove_thread. auto.
 Qed.
